@@ -213,6 +213,16 @@ _BINOPS = {
 }
 
 
+def _raised_inside_theory(e) -> bool:
+    """the innermost frame of the traceback is theory code (pyvc/theories): the model met a value it has no view of"""
+    tb = e.__traceback__
+    last = None
+    while tb is not None:
+        last = tb
+        tb = tb.tb_next
+    return last is not None and "/pyvc/theories/" in last.tb_frame.f_code.co_filename.replace("\\", "/")
+
+
 def is_concrete(v, depth=0) -> bool:
     if isinstance(v, (Sym, Obj, SymSeq, SymDict, SymCallable, Closure, BoundMethod, OpaqueStar)):
         return False
@@ -328,6 +338,13 @@ class Interp:
                 # call itself, no frame of the model ran): the call left the modelled vocabulary -> undecided, never a crash
                 if e.__traceback__ is not None and e.__traceback__.tb_next is None and ("unexpected keyword" in str(e) or "positional argument" in str(e)):
                     raise Unsupported(f"theory model {getattr(fn, '__qualname__', fn)} does not model this call: {e}")
+                if _raised_inside_theory(e):
+                    raise Unsupported(f"theory model {getattr(fn, '__qualname__', fn)} cannot handle this call (a value outside its vocabulary): {type(e).__name__}: {e}")
+                raise
+            except AttributeError as e:
+                # a library object the theory has no view of (e.g. a real polars expression) reached a theory model
+                if _raised_inside_theory(e):
+                    raise Unsupported(f"theory model {getattr(fn, '__qualname__', fn)} cannot handle this call (a value outside its vocabulary): {type(e).__name__}: {e}")
                 raise
         if inspect.ismethod(fn):  # live bound method (e.g. classmethod bound to a class)
             return self.call(fn.__func__, [fn.__self__] + list(args), kwargs)
@@ -1042,6 +1059,8 @@ class Interp:
             ast.copy_location(outer, s)
             return self.s_With(outer, fr)
         item = s.items[0]
+        if self.with_generator_cm(s, item, fr):
+            return
         cm = self.eval(item.context_expr, fr)
         enter = self.getattr(cm, "__enter__")
         exit_ = self.getattr(cm, "__exit__")
@@ -1061,6 +1080,59 @@ class Interp:
             raise
         else:
             self.call(exit_, [None, None, None])
+
+    def with_generator_cm(self, s, item, fr):
+        """`with f(args) [as x]: BODY` where f is a pandera function made a context manager by @contextlib.contextmanager (one yield):
+        the generator body is interpreted and BODY runs at its `yield` - inversion of control, which is exactly what
+        _GeneratorContextManager does: code before the yield = __enter__, an exception of BODY is thrown into the generator at the
+        yield (so its try/except/finally decide), normal completion of BODY resumes it after the yield.  Returns False when the
+        context expression is not of that form (or has a model)."""
+        ce = item.context_expr
+        if not isinstance(ce, ast.Call):
+            return False
+        try:
+            f = self.eval(ce.func, fr)
+        except (PyExc, Unsupported):
+            return False
+        g = getattr(f, "__wrapped__", None)
+        if not (isinstance(f, pytypes.FunctionType) and isinstance(g, pytypes.FunctionType) and inspect.isgeneratorfunction(g)
+                and f.__code__.co_filename.endswith("contextlib.py") and (g.__module__ or "").split(".")[0] in self.inline_modules):
+            return False
+        if self.models.lookup(f) is not None or self.contracts.get(id(f)) is not None or id(f) in self.no_inline:
+            return False
+        args = [self.eval(a, fr) for a in ce.args]
+        kwargs = {k.arg: self.eval(k.value, fr) for k in ce.keywords}
+        state = {"yields": 0, "control": None}
+        prev_hook = self.yield_hook
+
+        def hook(I, gfr, value):
+            state["yields"] += 1
+            if state["yields"] > 1:
+                raise Unsupported("context-manager generator yields more than once")
+            self.yield_hook = prev_hook
+            try:
+                if item.optional_vars is not None:
+                    self.assign(item.optional_vars, value, fr)
+                try:
+                    self.exec_block(s.body, fr)
+                except (_Return, _Break, _Continue) as c:
+                    state["control"] = c  # leaving BODY by return/break/continue: __exit__(None, None, None), then the jump
+            finally:
+                self.yield_hook = hook
+            return None
+
+        self.yield_hook = hook
+        try:
+            clo = LOADER.closure_of(g)
+            self.inlined[clo.qualname] = LOADER.hashes[clo.qualname]
+            self.call_closure(clo, args, kwargs)
+        finally:
+            self.yield_hook = prev_hook
+        if state["yields"] == 0:
+            self.raise_py(RuntimeError, "generator didn't yield")
+        if state["control"] is not None:
+            raise state["control"]
+        return True
 
     def s_While(self, s, fr):
         n = 0
